@@ -254,6 +254,16 @@ class DefaultLayout(_BaseLayout[_MaildirT]):
 
     """
 
+    @classmethod
+    def _split(cls, name: str, delimiter: str) -> _Parts:
+        parts = super()._split(name, delimiter)
+        for part in parts:
+            if '.' in part:
+                # "." separates the nested names on disk, "a.b" would be
+                # the same folder as "a/b"
+                raise FileNotFoundError(name)
+        return parts
+
     def _get_path(self, parts: _Parts) -> str:
         return os.path.join(self._path, self._get_subdir(parts))
 
